@@ -62,11 +62,26 @@ def _assigned_targets(body):
     return names, attrs, mutated
 
 
+def _pure_expr(e):
+    for n in ast.walk(e):
+        if isinstance(n, ast.Call):
+            if isinstance(n.func, ast.Attribute) and n.func.attr == 'get':
+                continue
+            if isinstance(n.func, ast.Name) and n.func.id in ('str', 'len', 'int', 'repr', 'format'):
+                continue
+            return False
+        if isinstance(n, (ast.Yield, ast.YieldFrom, ast.Await, ast.NamedExpr)):
+            return False
+    return True
+
+
 def _has_skip_path(body):
     """The loop body has an effect-free path: pure expression statements followed by one `if` without else."""
     if not body:
         return True
     for st in body[:-1]:
+        if isinstance(st, ast.Assign) and all(isinstance(t, ast.Name) for t in st.targets) and _pure_expr(st.value):
+            continue
         if not isinstance(st, ast.Expr):
             return False
     last = body[-1]
